@@ -356,7 +356,9 @@ func (q Req) model() string {
 
 func buildBody(q Req, nonce string) []byte {
 	if strings.HasPrefix(q.Route, "anthropic") {
-		head := fmt.Sprintf(`{"model":%q,"max_tokens":16,"messages":[{"role":"user","content":"`, q.model())
+		// every client defines a tool of the same name with a description of its own: part of the
+		// client's body like everything else
+		head := fmt.Sprintf(`{"model":%q,"max_tokens":16,"tools":[{"name":"lookup","description":"~%s#tooldesc~","input_schema":{"type":"object","properties":{"q":{"type":"string","description":"~%s#toolparam~"}}}}],"messages":[{"role":"user","content":"`, q.model(), nonce, nonce)
 		tail := `"}]}`
 		pad := q.Size - len(head) - len(tail)
 		if pad < 24 {
